@@ -158,6 +158,22 @@ CHECKS = {
               'with every switch off, single switches off, filters off x multi-tile layouts, tile_columns/rows 0..6 x sizes with fewer superblocks than requested tiles.'),
         note=('Partial: the monitor is verified, the claim about the encoder is observed on the scenarios run. Headers and block modes are read from the library\'s own decoder parse through EbDecHandle internals (no independent AV1 parser is available offline), '
               'so a syntax error shared by encoder and decoder would not be seen; superres on/off is checked through the frame-size fields only.')),
+    'C08': dict(
+        category='other', design_ref='DESIGN.md §6 C08',
+        technique='Differential: decoder output against the encoder reconstruction over tools / sizes / bit depths / film grain / both decoder pipeline depths + Coq theorem for the shared film-grain random generator (regenerated from the C source) against the AV1 specification',
+        text=('c08_grain_rng_matches_spec: get_random_number of grainSynthesis.c, translated from /repo on every run, equals the 16-bit LFSR of section 7.18.3.2 for every register value and bit count (the one component the reference shares with the decoder). '
+              'For 11 (quick) stream families - landscape and portrait, 8/10 bit, 64 and 128 superblocks, screen content, tiles, superres, film grain on moving and on static noisy sources (parameter inheritance) - the pictures returned by svt_av1_dec_get_picture with '
+              'is_16bit_pipeline 0 and 1 must equal the encoder reconstruction of the same display position sample for sample, in order, and the decoder must not crash or hang.'),
+        note=('Partial: no independent AV1 decoder (aomdec, dav1d) nor foreign-encoder streams are available offline, so the reference is the encoder\'s own reconstruction (independent code for prediction, transforms, filters; shared code for film-grain synthesis) '
+              'and only streams the SVT encoder can produce are covered. The portrait-size decoder crash found by this check is fixed in /repo (864c3b0).')),
+    'C09': dict(
+        category='other', design_ref='DESIGN.md §6 C09',
+        technique='Coq theorems (every worker count, every interleaving) on a model of the tile reconstruction wavefront + metamorphic decodes across thread counts and perturbed schedules (hook H1) + ASan/UBSan decode',
+        text=('c09_wavefront_invariant / c09_decode_after_neighbours / c09_no_deadlock / c09_terminates (DecWave.v: rows claimed in order under the tile mutex, spin wait on the parser and on the upper-right neighbour): a row never has two owners, every superblock '
+              'is decoded exactly once and only after its left, upper and upper-right neighbours, some step is enabled until the tile is complete (the spin waits cannot deadlock) and every interleaving terminates. The same streams (1, 2 and 8 tiles, 64 and 128 superblocks, '
+              '8/10 bit, film grain, portrait) are decoded with 1, 2, 3, 4, 8 threads and under two perturbation seeds: pictures must equal the single-thread pictures, the decoder must return and tear down; a two-tile stream is decoded with 1 and 4 threads under ASan+UBSan.'),
+        note=('Partial: the model covers the reconstruction stage of one tile and is a transcription (tied to the code by the runs only); loop filter, CDEF, restoration and motion-field projection jobs, and data races on picture memory, are exhibited only by the runs. '
+              'Known findings D25 (loop restoration rows differ with >= 2 threads) and D26 (multi-tile streams, >= 4 threads: schedule-dependent wrong blocks); the teardown double free is fixed in /repo. TSan is not used (it cannot follow the spin waits on plain volatile flags without drowning in reports).')),
 }
 
 NOT_BUILT_REASON = 'check not built yet in this development (work in progress); no claim is made'
